@@ -33,26 +33,28 @@ def bhe_and_radial(params=None):
     return bhe, rn
 
 
-def make_hybrid(loads, n_months, params=None, years=None):
+def make_hybrid(loads, n_months, params=None, years=None, start_month=1):
+    """n_months = number of simulated months; with start_month s the tool's end_month is s + n_months - 1"""
     from ghedesigner.ground_loads import HybridLoad
     from ghedesigner.simulation import SimulationParameters
 
     bhe, rn = bhe_and_radial(params)
-    sp = SimulationParameters(1, n_months, 35.0, 5.0, 135.0, 60.0)
+    sp = SimulationParameters(start_month, start_month + n_months - 1, 35.0, 5.0, 135.0, 60.0)
     with warnings.catch_warnings():
         warnings.simplefilter("ignore")
         return HybridLoad(list(loads), bhe, rn, sp, years=years or [2019])
 
 
-def month_energies(hl, n_months, month_ends):
+def month_energies(hl, n_months, month_ends, first=0):
     """energy (kWh) of each simulated month of the hybrid sequence: signed sum of load x breakpoint difference between
-    consecutive month-end breakpoints (position of a month end = last index whose hour equals it).  Returns
+    consecutive month-end breakpoints (position of a month end = last index whose hour equals it).  `month_ends` holds the
+    cumulative month ends from the start of the year; simulated months are first .. n_months-1 (0-based).  Returns
     (list of energies, list of positions) or raises LookupError naming the month whose end has no breakpoint."""
     hour = [float(x) for x in hl.hour]
     load = [float(x) for x in hl.load]
     pos = []
-    prev = 1  # hour[0]=hour[1]=0 are the start
-    for m in range(n_months):
+    prev = 1  # hour[0] = 0, hour[1] = start of the simulation
+    for m in range(first, n_months):
         idx = None
         for j in range(len(hour) - 1, prev, -1):
             if hour[j] == float(month_ends[m]):
@@ -64,10 +66,10 @@ def month_energies(hl, n_months, month_ends):
         prev = idx
     energies = []
     prev = 1
-    for m in range(n_months):
+    for k in range(len(pos)):
         e = 0.0
-        for j in range(prev + 1, pos[m] + 1):
+        for j in range(prev + 1, pos[k] + 1):
             e += load[j] * (hour[j] - hour[j - 1])
         energies.append(e)
-        prev = pos[m]
+        prev = pos[k]
     return energies, pos
